@@ -149,3 +149,49 @@ Proof.
   - apply str_eqb_eq in Ea. subst a. rewrite E. exact IH.
   - cbn [find fst]. destruct (str_eqb a k); [reflexivity | exact IH].
 Qed.
+
+(* header names are looked up in their canonical form: canonicalising is idempotent, so a constraint behaves the same
+   under every spelling of its header's name *)
+Lemma up_c_idem c : up_c (up_c c) = up_c c.
+Proof.
+  unfold up_c. destruct (N.leb 97 c && N.leb c 122) eqn:E; [|rewrite E; reflexivity].
+  apply andb_prop in E as [A B]. apply N.leb_le in A, B.
+  destruct (N.leb 97 (c - 32) && N.leb (c - 32) 122) eqn:E2; [|reflexivity].
+  apply andb_prop in E2 as [A2 B2]. apply N.leb_le in A2, B2. lia.
+Qed.
+
+Lemma low_c_idem c : low_c (low_c c) = low_c c.
+Proof.
+  unfold low_c. destruct (N.leb 65 c && N.leb c 90) eqn:E; [|rewrite E; reflexivity].
+  apply andb_prop in E as [A B]. apply N.leb_le in A, B.
+  destruct (N.leb 65 (c + 32) && N.leb (c + 32) 90) eqn:E2; [|reflexivity].
+  apply andb_prop in E2 as [A2 B2]. apply N.leb_le in A2, B2. lia.
+Qed.
+
+Lemma up_c_dash c : N.eqb (up_c c) 45 = N.eqb c 45.
+Proof.
+  unfold up_c. destruct (N.leb 97 c && N.leb c 122) eqn:E; [|reflexivity].
+  apply andb_prop in E as [A B]. apply N.leb_le in A, B.
+  destruct (N.eqb_spec (c - 32) 45), (N.eqb_spec c 45); try reflexivity; lia.
+Qed.
+
+Lemma low_c_dash c : N.eqb (low_c c) 45 = N.eqb c 45.
+Proof.
+  unfold low_c. destruct (N.leb 65 c && N.leb c 90) eqn:E; [|reflexivity].
+  apply andb_prop in E as [A B]. apply N.leb_le in A, B.
+  destruct (N.eqb_spec (c + 32) 45), (N.eqb_spec c 45); try reflexivity; lia.
+Qed.
+
+Lemma canon_go_idem : forall s up, canon_go up (canon_go up s) = canon_go up s.
+Proof.
+  induction s as [|c s IH]; intros up; [reflexivity|]. cbn [canon_go]. destruct up.
+  - rewrite up_c_idem, up_c_dash, IH. reflexivity.
+  - rewrite low_c_idem, low_c_dash, IH. reflexivity.
+Qed.
+
+Lemma canon_key_idem s : canon_key (canon_key s) = canon_key s.
+Proof. apply canon_go_idem. Qed.
+
+Lemma constraint_spelling n r h hdrs :
+  constraint_ok ((n, r) :: h) hdrs = constraint_ok ((canon_key n, r) :: h) hdrs.
+Proof. unfold constraint_ok. cbn [forallb fst snd]. rewrite canon_key_idem. reflexivity. Qed.
